@@ -97,6 +97,9 @@ pub struct Sim {
     pub stdin_pos: usize,
     /// Number of read calls served (including the ones that returned end of file).
     pub stdin_reads: u64,
+    /// Most bytes one read call hands out (a pipe gives a reader whatever has arrived: one byte
+    /// at a time at its worst, everything at once at its best).
+    pub stdin_chunk: usize,
     /// `None`: leave `Stream::new` alone (real stdin / real terminal detection).
     pub transport: Option<Transport>,
     pub keys: VecDeque<Key>,
@@ -126,6 +129,7 @@ impl Default for Sim {
             stdin: Vec::new(),
             stdin_pos: 0,
             stdin_reads: 0,
+            stdin_chunk: 1,
             transport: Some(Transport::Stdin),
             keys: VecDeque::new(),
             keys_read: 0,
@@ -299,10 +303,11 @@ pub fn stdin_read(buf: &mut [u8]) -> Option<usize> {
         if buf.is_empty() || sim.stdin_pos >= sim.stdin.len() {
             return 0;
         }
-        // One byte per call, like an unbuffered pipe reader at its worst
-        buf[0] = sim.stdin[sim.stdin_pos];
-        sim.stdin_pos += 1;
-        1
+        // As much as the caller asks for, up to the chunk size of this run
+        let count = buf.len().min(sim.stdin_chunk.max(1)).min(sim.stdin.len() - sim.stdin_pos);
+        buf[..count].copy_from_slice(&sim.stdin[sim.stdin_pos..sim.stdin_pos + count]);
+        sim.stdin_pos += count;
+        count
     })
 }
 
